@@ -38,6 +38,7 @@ def run(ctx):
     ctx.rule("C05.g", "Line's Display separates number and text by exactly one blank, the blank "
              "BasicLexer::lex strips after a line number")
     rule_h(ctx, cr)
+    rule_string_verbatim(ctx, cr)
     ctx.rule("C05.i", "a line and its listing are accepted or rejected alike at the end of the "
              "line: whatever end-of-line trimming removes, it does not leave an empty token that "
              "the listing cannot show")
@@ -281,6 +282,25 @@ def run(ctx):
     sp = any(ch == " " for ch, _b, _d, _s, _o in lt.char_consts(lx))
     ctx.check(sp, "C05.g", "lex/strips-one-blank", lx.span,
               "lex() tests for one ' ' after the line number")
+
+
+def rule_string_verbatim(ctx, cr, rid="C05.c"):
+    """the string scanner copies every character up to the closing quote: one look per character"""
+    f = cr.need_fn("lang::lex::BasicLexer::string")
+    ctx.touch(f)
+    sccs = [set(x) for x in f.sccs()]
+    inloop = lambda c: any(c.bb in sc for sc in sccs)
+    pops = [c for c in f.calls_matching(r"VecDeque::<T, A>::pop_front$") if inloop(c)]
+    peeks = [c for c in f.calls_matching(r"VecDeque::<T, A>::(front|get|iter)$")]
+    pushes = [c for c in f.calls_matching(r"String::push$") if inloop(c)]
+    ok = len(pops) == 1 and len(pushes) == 1 and not peeks
+    ctx.check(ok, rid, "string/verbatim-until-quote", f.span,
+              "inside a literal each character is taken once and copied, the first quote ends it",
+              "the string scanner looks ahead or takes more than one character per step (%d "
+              "pop_front, %d look-ahead, %d push in the loop): some character sequence inside a "
+              "literal (a doubled quote, an escape) is stored differently from how Literal's "
+              "Display writes it back, so the listing of such a line is not a fixed point"
+              % (len(pops), len(peeks), len(pushes)))
 
 
 def rule_i(ctx, cr):
